@@ -76,6 +76,10 @@ CLAIMS = {
             'Machine-checked proof over the reals that each function of analytic.py (modelled operation by operation and run against the Python on the same inputs) equals the dephasing filter function times omega^2 of the ideal sign-flip sequence with the family\'s flip times, for all n (g); the search compares the numerical engine on exact sign-flip pulses and on finite-width pi pulses with the shipped expressions.',
             'The identification of the package filter function for B=sigma_z/2, H_c=0 with |y|^2/(2 omega^2) is validated numerically; Float sin/cos/tan vs real functions is not proved.',
             'DESIGN.md §5 C19'),
+    'C20': ('Lean 4 theorems over executable validators that mirror the order of the checks in the source (valid => accepted; rejected <=> not valid; every rejection explained by a catalogued corruption of the reported class) + options table regenerated from the decorators + model-vs-implementation correspondence on abstract inputs + corruption search on real inputs',
+            'Machine-checked proof, for all abstract inputs (operator kinds and shapes, coefficient lengths, identifiers, durations, bases, cache / frequency states, qubit assignments), that the modelled validators of the constructors, parse_spectrum, identifier and option look-up, Basis, slicing, concatenate, extend / remap, the pulse-correlation getters and the small argument checks accept exactly the documented domain and raise the documented class otherwise (under explicit regularity hypotheses that exclude the recorded disagreements between code and documentation); the model is run against the real functions on thousands of structured requests per run (exception class and parsed output), the option table is regenerated from the decorators, and a catalogue of single corruptions / untouched valid inputs is applied to real random inputs.',
+            'Arrays are abstracted to shapes and byte/value identities; numpy shape rules are validated by the correspondence; the theorems hold under HamRegular/ArgsRegular/... hypotheses, the excluded inputs are recorded findings.',
+            'DESIGN.md §3 C20'),
     'C07': ('Lean 4 invariant proof over all finite histories of public calls on a pulse and its copies (cache state machine with cleanup sets regenerated from source) + model-vs-implementation correspondence on seeded histories',
             'Machine-checked proof (Lean 4 kernel, core only) that every public operation preserves cache coherence, that in every reachable state a request for grid g returns a value computed for exactly g from ingredients of g and never an error, and that the answer equals the one of a fresh pulse; the state machine is tied to pulse_sequence.py by the regenerated cleanup/alias/intermediates sets and by running the model and the real objects on the same histories, comparing the 19 cache fields after every call; every returned array is compared with a freshly constructed pulse.',
             'Cached arrays are abstracted to the grid they were computed for; Python aliasing of arrays between copies and the numerical kernels themselves are covered by measurement (comparison with fresh pulses), not by the theorem.',
